@@ -1,6 +1,8 @@
-(* C12 - concrete programs on which the faithful model (hence the pinned code; each is replayed on
-   `main` by harness/props/c12.py, see known_findings/C12.json) does NOT satisfy a law the property
-   demands, and positive examples showing that the hypotheses of the theorems are satisfiable. *)
+(* C12 - concrete programs: (a) the shapes on which the code used to violate the property and that the
+   `fix:` commits ffeef7f / 3be9fd7 / 5e201e9 repaired - now positive examples of the laws, replayed on
+   `main` through corpus/c12.json; (b) the programs on which the faithful model (hence the pinned code;
+   each is replayed on `main` by harness/props/c12.py, see known_findings/C12.json) still does NOT satisfy
+   a law the property demands; (c) examples showing that the hypotheses of the theorems are satisfiable. *)
 From Coq Require Import List Arith Bool Ascii String ZArith Lia.
 From Cb Require Import C12.Model C12.Maps C12.Registry.
 Import ListNotations.
@@ -15,25 +17,26 @@ Definition m_tick : method :=
 Definition d_CS : impl_def := {| i_iface := "C"; i_type := "S"; i_statics := [("n", 0)]; i_methods := [m_tick] |}.
 Definition s1_var : name * value := ("s1", VConc "S" (PStruct [("v", 2)])).
 
-(* finding #34 / C12-statics-struct-receiver:  C c = s1; c.tick(); s1.tick(); *)
+(* former finding #34 (fixed ffeef7f):  C c = s1; c.tick(); s1.tick();  -> 1, 2 *)
 Definition prog_struct_receiver : program :=
   {| p_ifaces := [("C", ["tick"])]; p_impls := [d_CS]; p_vars := [s1_var]; p_helpers := [];
      p_ops := [OBind "c" "C" "s1"; OCall (RVar "c") "tick" 0; OCall (RVar "s1") "tick" 0] |}.
-Lemma struct_receiver_witness : run_program prog_struct_receiver = ([("", [1])], Some (EUndefVar "n")).
+Example struct_receiver_statics : run_program prog_struct_receiver = ([("", [1]); ("", [2])], None).
 Proof. vm_compute. reflexivity. Qed.
 
-(* typedef int P;  impl C for P { static int n = 0; ... };  P x = 7;  C c = x;  c.tick(); *)
+(* former finding (fixed ffeef7f): typedef int P; impl C for P { static int n = 0; ... }; P x = 7; C c = x; c.tick(); *)
 Definition d_CP : impl_def := {| i_iface := "C"; i_type := "P"; i_statics := [("n", 0)]; i_methods := [m_tick] |}.
 Definition prog_prim_receiver : program :=
   {| p_ifaces := [("C", ["tick"])]; p_impls := [d_CP]; p_vars := [("x", VConc "P" (PPrim 7))]; p_helpers := [];
-     p_ops := [OBind "c" "C" "x"; OCall (RVar "c") "tick" 0] |}.
-Lemma prim_receiver_witness : run_program prog_prim_receiver = ([], Some (EUndefVar "n")).
+     p_ops := [OBind "c" "C" "x"; OCall (RVar "c") "tick" 0; OCall (RVar "x") "tick" 0] |}.
+Example prim_receiver_statics : run_program prog_prim_receiver = ([("", [1]); ("", [2])], None).
 Proof. vm_compute. reflexivity. Qed.
 
 (* interface A { int get(int d); }; interface B { int other(int d); };
    impl A for S { static int n = 10;  get:   n = n + 1; return n; };
    impl B for S { static int n = 500; other: n = n + 1; return n; };
-   A a = s1; B b = s1; a.get(); b.other(); a.other();   -- the last call is accepted and returns 12 *)
+   A a = s1; B b = s1; a.get(); b.other(); a.other();
+   STILL accepted (the method is found through T::m); since ffeef7f it counts in its own pair: 502 *)
 Definition m_get : method := {| m_name := "get"; m_body := [SSetStatic "n" (EAdd (EStatic "n") (EConst 1))]; m_ret := EStatic "n" |}.
 Definition m_other : method := {| m_name := "other"; m_body := [SSetStatic "n" (EAdd (EStatic "n") (EConst 1))]; m_ret := EStatic "n" |}.
 Definition d_AS : impl_def := {| i_iface := "A"; i_type := "S"; i_statics := [("n", 10)]; i_methods := [m_get] |}.
@@ -43,26 +46,48 @@ Definition prog_cross_interface : program :=
      p_ops := [OBind "a" "A" "s1"; OBind "b" "B" "s1"; OCall (RVar "a") "get" 0; OCall (RVar "b") "other" 0;
                OCall (RVar "a") "other" 0; OCall (RVar "b") "other" 0] |}.
 Lemma cross_interface_witness :
-  run_program prog_cross_interface = ([("", [11]); ("", [501]); ("", [12]); ("", [502])], None).
+  run_program prog_cross_interface = ([("", [11]); ("", [501]); ("", [502]); ("", [503])], None).
 Proof. vm_compute. reflexivity. Qed.
 
-(* the impl context is one slot: a call made while another impl context is active (i.e. from inside a
-   method entered through an interface value) leaves NO context behind, not the enclosing one *)
-Definition st_nested : state :=
-  {| s_impls := [d_AS; d_BS]; s_funcs := [(method_key "S" "get", m_get)];
-     s_statics := [(static_key "A" "S" "n", 10); (static_key "B" "T" "n", 500)];
-     s_vars := [("x", VIface "A" "S" (PStruct [("v", 1)]))];
-     s_ctx := Some ("B", "T"); s_out := [] |}.
-Lemma nested_context_witness : exists st' z, call st_nested (RVar "x") "get" 0 = Ok (st', z) /\ s_ctx st' = None.
-Proof. eexists; eexists. split; [vm_compute; reflexivity|reflexivity]. Qed.
+(* former finding (fixed 3be9fd7): a nested call under another block's context, then the caller's static:
+   impl A for S { static n = 10; int get .. ; int both(int d) { n = n + 1; int r = self.other(d); n = n + 1; return n; } }
+   the callee counts in (B,S), the caller goes on counting in (A,S) *)
+Definition m_both : method :=
+  {| m_name := "both";
+     m_body := [SSetStatic "n" (EAdd (EStatic "n") (EConst 1)); SCallSelf "A.S.both>other" "other" EArg;
+                SSetStatic "n" (EAdd (EStatic "n") (EConst 1))];
+     m_ret := EStatic "n" |}.
+Definition d_AS2 : impl_def := {| i_iface := "A"; i_type := "S"; i_statics := [("n", 10)]; i_methods := [m_get; m_both] |}.
+Definition prog_nested_context : program :=
+  {| p_ifaces := [("A", ["get"; "both"]); ("B", ["other"])]; p_impls := [d_AS2; d_BS]; p_vars := [s1_var]; p_helpers := [];
+     p_ops := [OBind "a" "A" "s1"; OCall (RVar "a") "both" 0; OCall (RVar "s1") "both" 0; OCall (RVar "a") "get" 0] |}.
+Example nested_context_restored :
+  run_program prog_nested_context =
+  ([("A.S.both>other", [501]); ("", [12]); ("A.S.both>other", [502]); ("", [14]); ("", [15])], None).
+Proof. vm_compute. reflexivity. Qed.
 
-(* typedef int P; impl C for P { int me(int d) { return self; } };  P x = 7; C c = x; println(c.me(0)); *)
+(* former finding (fixed 5e201e9): typedef int P; impl C for P { int me(int d) { return self; } }; *)
 Definition m_me : method := {| m_name := "me"; m_body := []; m_ret := ESelf |}.
 Definition d_CP2 : impl_def := {| i_iface := "C"; i_type := "P"; i_statics := []; i_methods := [m_me] |}.
 Definition prog_return_self : program :=
   {| p_ifaces := [("C", ["me"])]; p_impls := [d_CP2]; p_vars := [("x", VConc "P" (PPrim 7))]; p_helpers := [];
      p_ops := [OBind "c" "C" "x"; OCall (RVar "c") "me" 0] |}.
-Lemma return_self_witness : run_program prog_return_self = ([("", [0])], None).
+Example return_self_value : run_program prog_return_self = ([("", [7])], None).
+Proof. vm_compute. reflexivity. Qed.
+
+(* STILL failing: the writes a nested  self.bump(d)  makes to self are not in the caller's self afterwards:
+   impl C for S { int bump(int d) { self.v = self.v + d; return self.v; }
+                  int outer(int d) { int r = self.bump(d); println(r); println(self.v); return self.v; } };
+   s1.v = 2; s1.outer(5)  prints 7, then 2 (demanded 7), and s1.v stays 2 *)
+Definition m_bump : method := {| m_name := "bump"; m_body := [SSetField "v" (EAdd (EField "v") EArg)]; m_ret := EField "v" |}.
+Definition m_outer : method :=
+  {| m_name := "outer"; m_body := [SCallSelf "C.S.outer>bump" "bump" EArg; SPrint "C.S.outer" [EField "v"]]; m_ret := EField "v" |}.
+Definition d_CS2 : impl_def := {| i_iface := "C"; i_type := "S"; i_statics := []; i_methods := [m_bump; m_outer] |}.
+Definition prog_nested_write : program :=
+  {| p_ifaces := [("C", ["bump"; "outer"])]; p_impls := [d_CS2]; p_vars := [s1_var]; p_helpers := [];
+     p_ops := [OCall (RVar "s1") "outer" 5; OShow "s1"] |}.
+Lemma nested_write_witness :
+  run_program prog_nested_write = ([("C.S.outer>bump", [7]); ("C.S.outer", [2]); ("", [2]); ("s1", [2])], None).
 Proof. vm_compute. reflexivity. Qed.
 
 (* ---------- positive examples: the hypotheses used by the theorems hold for ordinary programs ---------- *)
@@ -87,47 +112,21 @@ Example dispatch_example :
 Proof. vm_compute. reflexivity. Qed.
 
 (* ---------- the refuted laws, as stated in Properties_C12.v ---------- *)
-Lemma statics_reachable_through_struct_receiver_refuted_l :
-  exists p out n, wf_impls (p_impls p) /\ run_program p = (out, Some (EUndefVar n)) /\
-    (exists d, In d (p_impls p) /\ In n (map fst (i_statics d))).
-Proof.
-  exists prog_struct_receiver, [("", [1%Z])], "n". split; [|split].
-  - repeat constructor; simpl; try reflexivity; intros H; destruct H.
-  - exact struct_receiver_witness.
-  - exists d_CS. simpl. auto.
-Qed.
-
-Lemma statics_reachable_for_primitive_impl_refuted_l :
-  exists p out n, wf_impls (p_impls p) /\ run_program p = (out, Some (EUndefVar n)) /\
-    (exists d, In d (p_impls p) /\ In n (map fst (i_statics d))).
-Proof.
-  exists prog_prim_receiver, [], "n". split; [|split].
-  - repeat constructor; simpl; try reflexivity; intros H; destruct H.
-  - exact prim_receiver_witness.
-  - exists d_CP. simpl. auto.
-Qed.
-
 Lemma method_outside_interface_rejected_refuted_l :
   exists p, wf_impls (p_impls p) /\
-    run_program p = ([("", [11%Z]); ("", [501%Z]); ("", [12%Z]); ("", [502%Z])], None) /\
+    run_program p = ([("", [11%Z]); ("", [501%Z]); ("", [502%Z]); ("", [503%Z])], None) /\
     In (OCall (RVar "a") "other" 0%Z) (p_ops p) /\ alookup "A" (p_ifaces p) = Some ["get"].
 Proof.
   exists prog_cross_interface. split; [|split; [exact cross_interface_witness|split; [simpl; auto 10|reflexivity]]].
   repeat constructor; simpl; try reflexivity; intros H; destruct H.
 Qed.
 
-Lemma impl_context_restored_after_nested_call_refuted_l :
-  exists st rc m arg st' z c, s_ctx st = Some c /\ call st rc m arg = Ok (st', z) /\ s_ctx st' = None.
+Lemma nested_self_call_writes_visible_refuted_l :
+  exists p out, wf_impls (p_impls p) /\ run_program p = (out, None) /\
+    In ("C.S.outer>bump", [7%Z]) out /\ In ("C.S.outer", [2%Z]) out /\
+    (exists d, p_impls p = [d] /\ In m_bump (i_methods d) /\ In m_outer (i_methods d)).
 Proof.
-  destruct nested_context_witness as [st' [z [H1 H2]]].
-  exists st_nested, (RVar "x"), "get", 0%Z, st', z, ("B", "T"). auto.
-Qed.
-
-Lemma return_self_of_primitive_refuted_l :
-  exists p, run_program p = ([("", [0%Z])], None) /\ p_vars p = [("x", VConc "P" (PPrim 7))] /\
-    p_ops p = [OBind "c" "C" "x"; OCall (RVar "c") "me" 0%Z] /\
-    (exists d m, p_impls p = [d] /\ i_methods d = [m] /\ m_ret m = ESelf /\ m_body m = []).
-Proof.
-  exists prog_return_self. split; [exact return_self_witness|split; [reflexivity|split; [reflexivity|]]].
-  exists d_CP2, m_me. auto.
+  exists prog_nested_write. eexists. split; [|split; [exact nested_write_witness|]].
+  - repeat constructor; simpl; try reflexivity; intros H; repeat (destruct H as [H|H]; try discriminate); auto.
+  - simpl. split; [auto|split; [auto|]]. exists d_CS2. simpl. auto.
 Qed.
